@@ -1418,6 +1418,9 @@ func (ch *checker) check(k *tcase, withModel bool) *tracer {
 	}
 	c.Eval(fmt.Sprintf("%s|%s|%s", k.Class, epochOf(k.Height), strings.SplitN(rc, ":", 3)[0]), key)
 	ch.results[rc]++
+	if pre := os.Getenv("C07_DUMP"); pre != "" && strings.HasPrefix(k.Class, pre) {
+		fmt.Fprintf(os.Stderr, "DUMP %s %s steps=%d %s\n", k.Class, rc, t.steps, mustJSON(k))
+	}
 	if t.staticEmptyOnly > 0 {
 		c.Count("observed/static-frame-created-or-touched-an-empty-account-only")
 	}
@@ -2554,12 +2557,12 @@ func factoryCode(inits [][]byte, callChild []bool, between []common.Address) []b
 		a.pushU(0).op(0x39)                                 // CODECOPY(0, off_i, len_i)
 		a.pushU(uint64(len(ic))).pushU(0).pushU(0).op(0xf0) // CREATE(0, 0, len_i)
 		if callChild[i] {
-			a.pushU(0).pushU(0).pushU(0).pushU(0).pushU(0).op(0x85, 0x5a, 0xf1, 0x50) // CALL(gas, child, 0, ...) POP
+			a.pushU(0).pushU(0).pushU(0).pushU(0).pushU(0).op(0x85).pushU(200000).op(0xf1, 0x50) // CALL(200000, child, 0, ...) POP
 		}
 		a.op(0x50)
 		if i < len(between) {
-			a.pushU(0).pushU(0).pushU(0).pushU(0).pushU(0).pushA(between[i]).op(0x5a, []byte{0xf1, 0xf2}[i%2], 0x50)
-			a.pushU(0).pushU(0).pushU(0).pushU(0).pushA(between[i]).op(0x5a, 0xf4, 0x50)
+			a.pushU(0).pushU(0).pushU(0).pushU(0).pushU(0).pushA(between[i]).pushU(200000).op([]byte{0xf1, 0xf2}[i%2], 0x50)
+			a.pushU(0).pushU(0).pushU(0).pushU(0).pushA(between[i]).pushU(200000).op(0xf4, 0x50)
 		}
 	}
 	a.op(0x00)
@@ -2582,11 +2585,12 @@ func (g *gen) factories() []*tcase {
 		lib2 := []byte{0x60, 0x04, 0x56, 0x60, 0x5b, 0x00}                                                            // jump into push data
 		fac := factoryCode(inits, calls, []common.Address{addrLib, addrLib2, addrLib})
 		for _, h := range g.heights() {
-			out = append(out, &tcase{Kind: "call", Height: h, Gas: 3000000, Value: "0x0", Caller: ha(addrCaller), Target: ha(addrMain), Data: "-",
+			// a failing creation burns 63/64 of what is left: enough gas for four of them in a row
+			out = append(out, &tcase{Kind: "call", Height: h, Gas: 1 << 40, Value: "0x0", Caller: ha(addrCaller), Target: ha(addrMain), Data: "-",
 				Accts: baseAccts(fac, lib, lib2), Class: class})
 		}
 		// the factory itself as the init code of a transaction-level creation
-		out = append(out, &tcase{Kind: "create", Height: g.oneHeight(), Gas: 3000000, Value: "0x0", Caller: ha(addrCaller), Target: "0x0", Data: hexb(fac),
+		out = append(out, &tcase{Kind: "create", Height: g.oneHeight(), Gas: 1 << 40, Value: "0x0", Caller: ha(addrCaller), Target: "0x0", Data: hexb(fac),
 			Accts: baseAccts(nil, lib, lib2), Class: class + "-top"})
 	}
 	mk := func(kind, pad, rt int) []byte { return jumpingInit(kind, pad, jumpingRuntime(rt), r) }
